@@ -483,6 +483,14 @@ def cases(rng, tier, seed):
         R = impl_results(sc)
         _SC['res'].append(R)
         out += cases_of(sc, R, si)
+    # round 2: failure paths and aliasing
+    r2 = r2_scenarios(rng, tier, seed)
+    _R2.clear()
+    _R2.update({'list': r2, 'res': []})
+    for si, sc in enumerate(r2):
+        R = r2_run(sc)
+        _R2['res'].append(R)
+        out += r2_cases(sc, R, si)
     return out
 
 
@@ -760,6 +768,435 @@ def cache_identity_checks(sc, bad):
             bad(('cache/func/cache_to_psd/disturbs-cache', 'cache_to_coherency after cache_to_psd differs from cache_to_coherency on a fresh cache', 'coherency'))
 
 
+# ------------------------------------------------------------------ round 2: failure paths (L7) and aliasing (L8 / L6)
+# Scenario kinds (own small data sets; every exception of a refused call is caught by the harness):
+#  'outhist'   ONE cache queried again and again through cache_to_coherency / relative_phase / psd / phase with other and EQUAL
+#              pair lists (several of equal output shape); every result is HELD and re-inspected at the end: unchanged since
+#              hand-out, shares no memory with the cache or another result, still equal to the dense values (model: `outhist`);
+#              the same through an analyzer (`S.coherency` held while `S.cache` is queried again).
+#  'sess'      ONE SparseCoherenceAnalyzer through set_input calls with series it may refuse (a channel of ij missing, 1-d), a
+#              good series of another rate, the SAME object after its data changed in place, a row-strided view; reset(); after
+#              each step frequencies / spectrum / delay / coherency are judged against the dense computation on the input
+#              ACTUALLY HELD (model: `sess`: the rate used and the series held).
+#  'refused'   cache_fft refused (lb > ub, window of the wrong length, unknown this_method, NFFT no integer) with the CALLER's
+#              method dict, cache_to_* with a pair the cache does not hold; then the proper call with the same dict / cache.
+#  'seedview'  SeedCoherenceAnalyzer whose seed samples are a row-strided / reversed VIEW of the target's samples.
+_R2 = {}
+R2_FNS = {'coherency': 'cache_to_coherency', 'relphase': 'cache_to_relative_phase', 'psd': 'cache_to_psd', 'phase': 'cache_to_phase'}
+
+
+def r2_scenarios(rng, tier, seed):
+    nr = np_rng(PID, seed, 'round2')
+    out = []
+    reps = 2 if tier == 'quick' else 8
+    for r in range(reps):
+        for k, kind in enumerate(['outhist', 'outhist'] + ['sess'] * 9 + ['refused', 'seedview', 'seedview']):
+            i = r * 14 + k
+            nch = [3, 4, 3, 5][i % 4]
+            NFFT = [8, 16, 7, 15][(i // 2) % 4]
+            n = [4 * NFFT + 3, 6 * NFFT, NFFT + 2, 5 * NFFT + 1][(i // 3) % 4]
+            Fs = [1.0, 250.0, 10.0, 2.0][i % 4]
+            nf = NFFT // 2 + 1
+            if i % 3 == 0:
+                lb, ub = 0.0, None
+            else:
+                a = rng.randrange(0, nf - 1)
+                lb, ub = max(0.0, (a - 0.5) * Fs / NFFT), (rng.randrange(a + 1, nf + 1) - 0.5) * Fs / NFFT
+            sc = {'r2': kind, 'data': gen_data(nr, nch, n).tolist(), 'NFFT': NFFT, 'nov': [None, 0, NFFT // 2][i % 3], 'win': 'hann', 'winvals': None,
+                  'Fs': Fs, 'lb': lb, 'ub': ub, 'sbf': bool(i % 2), 'psm': bool((i // 2) % 2), 'ij': [(0, nch - 1), (nch - 1, 0), (1, 1)], 'nseed': 1}
+            if kind == 'outhist':
+                top = (nch - 1, nch - 1)
+                lists = [[(0, 1), top], [(1, 0), top], [(0, 1), top], [top], [(0, 0), (1, 1), top], [(0, 1)], [(1, 0), (0, 1)], [(0, 1), top]]
+                rng.shuffle(lists)
+                sc['queries'] = [[fn, q] for fn in ('coherency', 'relphase', 'psd', 'phase') for q in lists[:6 if fn in ('coherency', 'relphase') else 3]]
+                rng.shuffle(sc['queries'])
+            elif kind == 'sess':
+                pats = [['f', 's:few', 'f'], ['s:few', 'f', 'r', 'f'], ['f', 's:1d', 'f'], ['s:ok', 'f', 's:few', 'f', 'r', 'f'], ['f', 's:same-changed', 'f'],
+                        ['s:few', 's:ok', 'f'], ['s:row-view', 'f', 's:few', 'f'], ['f', 's:ok', 's:1d', 'r', 'f']]
+                sc['events'] = []
+                for t in pats[(r + k) % len(pats)]:
+                    if t.startswith('s:'):
+                        rate = rng.choice([v for v in (1.0, 2.0, 10.0, 250.0, 0.5, 1000.0) if v != Fs])
+                        sc['events'].append(['s', t[2:], rate, rng.randrange(10**6)])
+                    else:
+                        sc['events'].append([t])
+                sc['userfs'] = (k == 10)                       # the ninth session: the caller fixes 'Fs' in the method dict
+            elif kind == 'refused':
+                sc['refusals'] = ['inverted-band', 'window-length', 'unknown-method', 'nfft-float', 'pair-not-cached']
+            else:
+                sc['view'] = ['row-strided', 'reversed'][i % 2]
+            out.append(sc)
+    return out
+
+
+def _dense(X, sc, Fs=None):
+    m = method_of(sc, dense=True)
+    if Fs is not None:
+        m['Fs'] = Fs
+    A = tsa()
+    f, cden = A.coherency(X, dict(m))
+    f2, fxy = A.get_spectra(X, dict(m))
+    li = int(np.searchsorted(f, sc['lb'], 'left'))
+    ui = len(f) if sc['ub'] is None else int(np.searchsorted(f, sc['ub'], 'right'))
+    return f[li:ui], cden[:, :, li:ui], fxy[:, :, li:ui]
+
+
+def _snap(r):
+    if isinstance(r, dict):
+        return {k: np.array(v, copy=True) for k, v in r.items()}
+    return np.array(r, copy=True)
+
+
+def _eq(a, b):
+    if isinstance(a, dict) or isinstance(b, dict):
+        return isinstance(a, dict) and isinstance(b, dict) and sorted(a) == sorted(b) and all(_eq(a[k], b[k]) for k in a)
+    a, b = np.asarray(a), np.asarray(b)
+    return a.shape == b.shape and bool(np.array_equal(a, b, equal_nan=True))
+
+
+def _arrs(r):
+    return list(r.values()) if isinstance(r, dict) else [r]
+
+
+def _shares(a, b):
+    return any(np.shares_memory(x, y) for x in _arrs(a) for y in _arrs(b) if isinstance(x, np.ndarray) and isinstance(y, np.ndarray))
+
+
+def _cache_arrays(cache):
+    out = []
+    for v in cache.values():
+        if isinstance(v, np.ndarray):
+            out.append(v)
+        elif isinstance(v, dict):
+            out += [x for x in v.values() if isinstance(x, np.ndarray)]
+    return out
+
+
+def r2_outhist(sc):
+    A = tsa()
+    X = np.array(sc['data'], dtype=float)
+    nch = X.shape[0]
+    allp = [(i, j) for i in range(nch) for j in range(nch)]
+    kw = dict(lb=sc['lb'], ub=sc['ub'], prefer_speed_over_memory=sc['psm'], scale_by_freq=sc['sbf'])
+    f, cache = A.cache_fft(X, allp, method=method_of(sc), **kw)
+    held = []
+    for fn, q in sc['queries']:
+        q = [tuple(p) for p in q]
+        r = getattr(A, R2_FNS[fn])(cache, q)
+        held.append((fn, q, r, _snap(r)))
+    fd, cden, fxy = _dense(X, sc)
+    res = {'per_fn': {}, 'bad': []}
+    carr = _cache_arrays(cache)
+    for fn in R2_FNS:
+        hs = [h for h in held if h[0] == fn]
+        toks, ids, fins = [], [], []
+        for k, (_, q, r, snap) in enumerate(hs):
+            vid = min(j for j in range(k + 1) if _eq(hs[j][3], snap))
+            shape = (max(p[0] for p in q) + 1) * 100 + max(p[1] for p in q) + 1 if fn in ('coherency', 'relphase') else 0
+            toks.append('%d:%d' % (shape, vid))
+            ids.append(min(j for j in range(k + 1) if j == k or _shares(hs[j][2], r)))
+            fin = [j for j in range(len(hs)) if _eq(hs[j][3], r)]
+            fins.append(fin[0] if fin else -1)
+            if not _eq(snap, r):
+                res['bad'].append(('held-results/%s/changed-after-later-query' % fn, '%s(cache, %s): the result handed out, kept while the same cache was queried again '
+                                   '(%s), no longer holds the values it was handed out with' % (R2_FNS[fn], q, [h[1] for h in hs[k + 1:]][:3]), fn))
+            if any(_shares(r, c) for c in carr) or any(isinstance(v, np.ndarray) and _shares(r, v) for v in _arrs(cache)):
+                res['bad'].append(('held-results/%s/shares-memory-with-cache' % fn, '%s returns an array that lives in the cache dict' % R2_FNS[fn], fn))
+            if ids[-1] != k:
+                res['bad'].append(('held-results/%s/shares-memory-with-other-result' % fn, 'two results of %s from one cache (pair lists %s and %s) are the same memory' % (
+                    R2_FNS[fn], hs[ids[-1]][1], q), fn))
+            if fn == 'coherency':
+                w = np.array([cden[i, j] for i, j in q])
+                g = np.array([np.asarray(r)[i, j] for i, j in q])
+                if not c08.same(np.nan_to_num(g), np.nan_to_num(w), 1e-9):
+                    res['bad'].append(('held-results/coherency/ne-dense-at-end', 'cache_to_coherency(cache, %s), inspected after the later queries of the same cache, '
+                                       'differs from coherency() for these pairs' % q, fn))
+            if fn == 'psd':
+                chans = sorted({c for p in q for c in p})
+                w = np.array([np.real(fxy[c, c]) for c in chans]) * (1.0 if sc['sbf'] else sc['Fs'])
+                g = np.array([np.real(np.asarray(r[c])).reshape(-1) for c in chans])
+                if not c08.same(g, w, 1e-9):
+                    res['bad'].append(('held-results/psd/ne-dense-at-end', 'cache_to_psd(cache, %s), inspected after the later queries, differs from the dense PSD' % q, fn))
+        res['per_fn'][fn] = {'line': ' '.join(toks), 'impl': ' '.join('%d=%d' % (a, b) for a, b in zip(ids, fins))}
+    # the same through an analyzer: S.coherency is held while S.cache is queried again with pair lists of equal output shape
+    from nitime.analysis import SparseCoherenceAnalyzer
+    ij = [tuple(p) for p in sc['ij']]
+    S = SparseCoherenceAnalyzer(series_of(sc, X), ij, method=analyzer_method(sc), **kw)
+    c1 = S.coherency
+    s1 = _snap(c1)
+    A.cache_to_coherency(S.cache, [(nch - 1, nch - 1)])
+    A.cache_to_coherency(S.cache, [(1, 0), (nch - 1, nch - 1)])
+    if not _eq(s1, c1):
+        res['bad'].append(('held-results/sparse-coherency/changed-after-later-query', 'SparseCoherenceAnalyzer.coherency, held while analyzer.cache was queried again, changed', 'sparse-coherency'))
+    w = np.array([cden[i, j] for i, j in ij])
+    if not c08.same(np.nan_to_num(np.array([np.asarray(c1)[i, j] for i, j in ij])), np.nan_to_num(w), 1e-9):
+        res['bad'].append(('held-results/sparse-coherency/ne-dense-at-end', 'SparseCoherenceAnalyzer.coherency, inspected after analyzer.cache was queried again, differs from coherency()', 'sparse-coherency'))
+    return res
+
+
+def _vars_state(S):
+    import hashlib
+    out = {}
+    for k, v in vars(S).items():
+        if k == 'input':
+            out[k] = id(v)
+        elif isinstance(v, dict):
+            out[k] = tuple(sorted((str(a), repr(float(b)) if hasattr(b, '__float__') and not isinstance(b, (np.ndarray, str)) else
+                                   (hashlib.md5(np.ascontiguousarray(b).tobytes()).hexdigest() if isinstance(b, np.ndarray) else id(b) if callable(b) else repr(b)))
+                                  for a, b in v.items())) if k != 'cache' else 'cache'
+        elif isinstance(v, np.ndarray):
+            out[k] = hashlib.md5(np.ascontiguousarray(v).tobytes()).hexdigest()
+        else:
+            out[k] = repr(v)
+    return out
+
+
+def r2_sess(sc):
+    import nitime.timeseries as ts
+    from fractions import Fraction as Fr
+    from nitime.analysis import SparseCoherenceAnalyzer
+    X = np.array(sc['data'], dtype=float)
+    nch, n = X.shape
+    ij = [tuple(p) for p in sc['ij']]
+    kw = dict(lb=sc['lb'], ub=sc['ub'], prefer_speed_over_memory=sc['psm'], scale_by_freq=sc['sbf'])
+    m = method_of(sc)
+    ufs = None
+    if sc.get('userfs'):
+        ufs = 4.0 * sc['Fs']
+        m['Fs'] = ufs
+    else:
+        del m['Fs']
+    T0 = ts.TimeSeries(X, sampling_rate=sc['Fs'])
+    S = SparseCoherenceAnalyzer(T0, ij, method=m, **kw)
+    inputs = [T0]
+    degenerate = {}
+    res = {'seen': [], 'reads': [], 'bad': [], 'nraise': 0}
+    for ev in sc['events']:
+        if ev[0] == 's':
+            _, kind, rate, ds = ev
+            r_ = np.random.RandomState(ds)
+            held = S.input
+            if kind == 'same-changed':
+                np.asarray(held.data)[...] = r_.randn(*np.asarray(held.data).shape)
+                T = held
+            else:
+                Y = r_.randn(nch, n + ds % 5)
+                if kind == 'few':
+                    Y = Y[:nch - 1]
+                elif kind == '1d':
+                    Y = Y[0]
+                elif kind == 'row-view':
+                    Y = np.vstack([Y, -Y[::-1]])[::2][:nch] if nch % 2 == 0 else np.vstack([Y, Y[::-1], Y])[::3][:nch]
+                    if Y.shape[0] < nch:
+                        Y = r_.randn(2 * nch, n)[::2]
+                T = ts.TimeSeries(Y, sampling_rate=rate)
+            before = _vars_state(S)
+            try:
+                S.set_input(T)
+                raised = None
+            except Exception as e:  # noqa -- the caller catches the refusal and goes on with the analyzer
+                import common
+                raised = common.err_kind(e)
+            if raised:
+                res['nraise'] += 1
+                after = _vars_state(S)
+                d = sorted(k for k in set(before) | set(after) if before.get(k) != after.get(k))
+                if d:
+                    res['bad'].append(('sparse-session/refused-set_input/state-changed', 'SparseCoherenceAnalyzer.set_input(%s series at %s Hz) raised %s, yet the analyzer '
+                                       'is not as it was: %s' % (kind, rate, raised, d), 'sess'))
+            if T is not held:
+                inputs.append(T)
+                if kind in ('few', '1d'):
+                    degenerate[len(inputs) - 1] = kind
+            res['seen'].append('s%s:%d:%d' % (Fr(float(T.sampling_rate)), 1 if raised else 0, [i for i, t in enumerate(inputs) if t is T][0]))
+        elif ev[0] == 'r':
+            S.reset()
+            res['seen'].append('r')
+        else:
+            hid = ([i for i, t in enumerate(inputs) if t is S.input] or [-1])[0]
+            if hid < 0:
+                res['bad'].append(('sparse-session/input-lost', 'the analyzer holds a series it was never given', 'sess'))
+                continue
+            try:
+                got = {'f': np.array(S.frequencies, copy=True), 'c': np.array(S.coherency, copy=True), 'p': {k: np.array(v, copy=True) for k, v in S.spectrum.items()},
+                       'd': np.array(S.delay, copy=True), 'fs': float(S.method['Fs'])}
+            except Exception:  # noqa -- an ACCEPTED series that lacks a channel of ij / is 1-d: nothing to compare
+                continue
+            if hid in degenerate:
+                continue
+            res['seen'].append('f')
+            res['reads'].append((hid, got['fs']))
+            Xh = np.array(np.asarray(S.input.data), dtype=float)
+            Fh = ufs if ufs is not None else float(S.input.sampling_rate)
+            fd, cden, fxy = _dense(Xh, sc, Fs=Fh)
+            pre = 'sparse-session/after-%s' % ('refused-set_input' if res['nraise'] else 'set_input')
+            evs = ' '.join(e[0] if e[0] != 's' else 's(%s@%s)' % (e[1], e[2]) for e in sc['events'])
+            if not c08.same(got['f'], fd, 1e-12):
+                res['bad'].append((pre + '/frequencies-ne-dense', 'events %s: .frequencies %s… are not the dense grid %s… of the series held (#%d, %s Hz)' % (
+                    evs, got['f'][:3].tolist(), fd[:3].tolist(), hid, Fh), 'sess'))
+            chans = sorted({c for p in ij for c in p})
+            wp = np.array([np.real(fxy[c, c]) for c in chans]) * (1.0 if sc['sbf'] else Fh)
+            gp = np.array([np.real(got['p'][c]).reshape(-1) for c in chans])
+            if not c08.same(gp, wp, 1e-9):
+                res['bad'].append((pre + '/spectrum-ne-dense', 'events %s: .spectrum differs from the dense PSD of the series held (#%d, %s Hz; method[\'Fs\'] = %s)' % (
+                    evs, hid, Fh, got['fs']), 'sess'))
+            wc = np.array([cden[i, j] for i, j in ij])
+            gc = np.array([got['c'][i, j] for i, j in ij])
+            if not c08.same(np.nan_to_num(gc), np.nan_to_num(wc), 1e-9):
+                res['bad'].append((pre + '/coherency-ne-dense', 'events %s: .coherency differs from coherency() on the series held (#%d)' % (evs, hid), 'sess'))
+            with np.errstate(all='ignore'):
+                wd = np.array([np.angle(cden[i, j]) / (2 * np.pi * fd) for i, j in ij])
+            gd = np.array([got['d'][i, j] for i, j in ij])
+            ok_ = np.isfinite(wd) & (np.abs(wc) > 1e-6) & (np.abs(np.abs(np.angle(wc)) - np.pi) > 1e-6)
+            if gd.shape != wd.shape or (ok_.any() and not np.allclose(gd[ok_], wd[ok_], rtol=1e-7, atol=1e-12)):
+                res['bad'].append((pre + '/delay-ne-dense', 'events %s: .delay differs from angle(coherency())/(2 pi f) with the dense grid of the series held (#%d, %s Hz)' % (evs, hid, Fh), 'sess'))
+    res['line'] = 'C09 sess %s %s %s' % ('none' if ufs is None else Fr(ufs), Fr(sc['Fs']), ' '.join(res['seen']))
+    res['impl'] = ' '.join('%d@%s' % (h, Fr(fs)) for h, fs in res['reads']) or 'none'
+    return res
+
+
+def r2_refused(sc):
+    A = tsa()
+    X = np.array(sc['data'], dtype=float)
+    nch = X.shape[0]
+    ij = [tuple(p) for p in sc['ij']]
+    Fs, NFFT = sc['Fs'], sc['NFFT']
+    kw = dict(lb=sc['lb'], ub=sc['ub'], prefer_speed_over_memory=sc['psm'], scale_by_freq=sc['sbf'])
+    fd, cden, fxy = _dense(X, sc)
+    wc = np.array([cden[i, j] for i, j in ij])
+    res = {'bad': [], 'raised': {}}
+    for kind in sc['refusals']:
+        d = method_of(sc)
+        good = dict(d)
+        x0 = X.copy()
+        if kind == 'pair-not-cached':
+            f, cache = A.cache_fft(X, [(0, 1)], method=d, **kw)
+            keys0 = {k: (sorted(v) if isinstance(v, dict) else None) for k, v in cache.items()}
+            r = run(lambda: A.cache_to_coherency(cache, [(0, 1), (0, nch - 1)]))
+            res['raised'][kind] = r if isinstance(r, str) else None
+            r2_ = run(lambda: A.cache_to_psd(cache, [(0, nch - 1)]))
+            keys1 = {k: (sorted(v) if isinstance(v, dict) else None) for k, v in cache.items()}
+            if keys0 != keys1:
+                res['bad'].append(('refused-call/pair-not-cached/cache-changed', 'a cache_to_* call for a pair the cache does not hold changed the cache dict', 'refused'))
+            g = A.cache_to_coherency(cache, [(0, 1), (1, 0)])
+            if not c08.same(np.nan_to_num(np.array([g[0, 1], g[1, 0]])), np.nan_to_num(np.array([cden[0, 1], cden[1, 0]])), 1e-9):
+                res['bad'].append(('refused-call/pair-not-cached/ne-dense', 'after a refused query the same cache answers (0,1),(1,0) differently from coherency()', 'refused'))
+            continue
+        k2 = dict(kw)
+        if kind == 'inverted-band':
+            k2.update(lb=0.4 * Fs, ub=0.1 * Fs)
+        elif kind == 'window-length':
+            d['window'] = np.hanning(NFFT + 3)
+        elif kind == 'unknown-method':
+            d['this_method'] = 'no_such_method'
+        elif kind == 'nfft-float':
+            d['NFFT'] = NFFT + 0.5
+        r = run(lambda: A.cache_fft(X, ij, method=d, **k2))
+        res['raised'][kind] = r if isinstance(r, str) else None
+        extra = sorted(k for k in d if k not in good and k != 'window')
+        if isinstance(r, str) and extra:
+            res['bad'].append(('refused-call/%s/method-dict-changed' % kind, 'the refused cache_fft call (%s) left %s behind in the caller\'s method dict' % (r, extra), 'refused'))
+        if not np.array_equal(X, x0):
+            res['bad'].append(('refused-call/%s/data-changed' % kind, 'the refused cache_fft call changed the data array', 'refused'))
+        for k in ('this_method', 'NFFT'):
+            d[k] = good[k]
+        d.pop('window', None)
+        f, cache = A.cache_fft(X, ij, method=d, **kw)
+        g = A.cache_to_coherency(cache, ij)
+        if not c08.same(np.asarray(f), fd, 1e-12) or not c08.same(np.nan_to_num(np.array([g[i, j] for i, j in ij])), np.nan_to_num(wc), 1e-9):
+            res['bad'].append(('refused-call/%s/ne-dense' % kind, 'cache_fft refused once (%s), then called properly with the same method dict and data: frequencies / coherency differ from the dense path' % r, 'refused'))
+    return res
+
+
+def r2_seedview(sc):
+    import nitime.timeseries as ts
+    from nitime.analysis import SeedCoherenceAnalyzer
+    X = np.array(sc['data'], dtype=float)
+    nch = X.shape[0]
+    kw = dict(lb=sc['lb'], ub=sc['ub'], prefer_speed_over_memory=sc['psm'], scale_by_freq=sc['sbf'])
+    idx = list(range(nch))[1::2] if sc['view'] == 'row-strided' else list(range(nch))[::-1][:2]
+    sview = X[1::2] if sc['view'] == 'row-strided' else X[::-1][:2]
+    assert np.shares_memory(sview, X)
+    tgt = ts.TimeSeries(X, sampling_rate=sc['Fs'])
+    sd = ts.TimeSeries(sview, sampling_rate=sc['Fs'])
+    shared = np.shares_memory(np.asarray(sd.data), np.asarray(tgt.data))
+    S = SeedCoherenceAnalyzer(sd, tgt, method=analyzer_method(sc), **kw)
+    c1 = S.coherency
+    snap = np.array(c1, copy=True)
+    fr = np.array(S.frequencies, copy=True)
+    fd, cden, fxy = _dense(X.copy(), sc)
+    res = {'bad': [], 'shared': bool(shared), 'coh': snap, 'idx': idx}
+    want = np.array([[cden[a, t] for t in range(nch)] for a in idx])
+    if snap.size != want.size or not c08.same(np.nan_to_num(snap).reshape(-1), np.nan_to_num(want).reshape(-1), 1e-9):
+        res['bad'].append(('seed-view/%s/ne-dense' % sc['view'], 'SeedCoherenceAnalyzer with a seed that is a %s view of the target\'s samples: .coherency differs from the dense rows %s' % (sc['view'], idx), 'seedview'))
+    if not c08.same(fr, fd, 1e-12):
+        res['bad'].append(('seed-view/%s/frequencies-ne-dense' % sc['view'], 'SeedCoherenceAnalyzer.frequencies differ from the dense grid', 'seedview'))
+    np.asarray(sd.data)[...] *= -3.0          # the caller goes on working on the seed's samples (and so on the target's)
+    np.asarray(sd.data)[..., ::2] += 1.0
+    if not _eq(snap, c1):
+        res['bad'].append(('seed-view/%s/result-changed-after-inplace-write' % sc['view'], 'the coherency handed out changed when the seed samples were changed in place afterwards', 'seedview'))
+    X2 = np.array(np.asarray(tgt.data), dtype=float, copy=True)
+    S2 = SeedCoherenceAnalyzer(ts.TimeSeries(np.array(np.asarray(sd.data), copy=True), sampling_rate=sc['Fs']), ts.TimeSeries(X2, sampling_rate=sc['Fs']),
+                               method=analyzer_method(sc), **kw)
+    fd2, cden2, _ = _dense(X2, sc)
+    want2 = np.array([[cden2[a, t] for t in range(nch)] for a in idx])
+    if not c08.same(np.nan_to_num(np.asarray(S2.coherency)).reshape(-1), np.nan_to_num(want2).reshape(-1), 1e-9):
+        res['bad'].append(('seed-view/%s/new-analyzer-ne-dense' % sc['view'], 'a new SeedCoherenceAnalyzer on the changed samples differs from the dense rows', 'seedview'))
+    return res
+
+
+def r2_run(sc):
+    return run(lambda: {'outhist': r2_outhist, 'sess': r2_sess, 'refused': r2_refused, 'seedview': r2_seedview}[sc['r2']](sc))
+
+
+def cmp_outhist(impl, model):
+    """ids are compared up to renaming (first occurrence), final value ids exactly"""
+    def canon(s):
+        ps = [t.split('=') for t in s.split()]
+        first = {}
+        out = []
+        for k, (i, v) in enumerate(ps):
+            first.setdefault(i, k)
+            out.append((first[i], v))
+        return out
+    try:
+        return canon(impl) == canon(model)
+    except Exception:
+        return impl == model
+
+
+def cmp_sess(impl, model):
+    from fractions import Fraction as Fr
+    if impl == 'none' or model == 'none' or '@' not in model:
+        return impl == model
+    try:
+        a = [(t.split('@')[0], Fr(t.split('@')[1])) for t in impl.split()]
+        b = [(t.split('@')[0], Fr(t.split('@')[1])) for t in model.split()]
+        return a == b
+    except Exception:
+        return False
+
+
+def r2_cases(sc, R, si):
+    out = []
+    meta = lambda obs: {'sc': 'r2-%d' % si, 'obs': obs}
+    if isinstance(R, str):
+        out.append(Case('C09 grid %s %d' % (f2x(sc['Fs']), sc['NFFT']), R, 'round2/%s/error' % sc['r2'], meta=meta('error')))
+        return out
+    if sc['r2'] == 'outhist':
+        for fn, d in R['per_fn'].items():
+            out.append(Case('C09 outhist %s %s' % (R2_FNS[fn], d['line']), d['impl'], 'held-results/' + fn, cmp=cmp_outhist, meta=meta(fn)))
+    elif sc['r2'] == 'sess':
+        out.append(Case(R['line'], R['impl'], 'sparse-session/rate-and-input', cmp=cmp_sess, meta=meta('sess')))
+    elif sc['r2'] == 'seedview':
+        X = np.array(sc['data'], dtype=float)
+        ubt = 'none' if sc['ub'] is None else f2x(sc['ub'])
+        stack = np.vstack([X[R['idx']], X])
+        line = 'C09 seed %s %d %d %s %s %d %s' % (head(sc, 'dcache'), sc['sbf'], sc['psm'], f2x(sc['lb']), ubt, len(R['idx']), ' '.join(flist(x) for x in stack))
+        out.append(Case(line, 'ok ' + clist(np.asarray(R['coh']).reshape(-1)), 'seed-view/coherency', cmp=either(cmp_last), meta=meta('seedview')))
+    return out
+
+
 def oracle(rng, tier, seed, focus, cases=None):
     fails, nj = [], 0
     by = {}
@@ -773,12 +1210,30 @@ def oracle(rng, tier, seed, focus, cases=None):
             cs = [c for (s_, o_), l_ in by.items() if s_ == si for c in l_] if 'odd-nfft' in key else by.get((si, obs), [None])
             for c in (cs or [None]):
                 fails.append(Failure(key, what, {'scenario': sc, 'key': key}, case=c))
-    return fails, {'scenarios_judged': nj, 'failed_checks': len({(id(f.replay['scenario']), f.key) for f in fails}),
+    n2, nraise = 0, 0
+    for si, (sc, R) in enumerate(zip(_R2.get('list', []), _R2.get('res', []))):
+        n2 += 1
+        if isinstance(R, str):
+            fails.append(Failure('round2/%s/raises' % sc['r2'], 'the scenario could not be run: ' + R, {'scenario': sc, 'key': 'round2/%s/raises' % sc['r2']},
+                                 case=(by.get(('r2-%d' % si, 'error')) or [None])[0]))
+            continue
+        nraise += R.get('nraise', 0) + sum(1 for v in R.get('raised', {}).values() if v)
+        for key, what, obs in R['bad']:
+            fails.append(Failure(key, what, {'scenario': sc, 'key': key}, case=(by.get(('r2-%d' % si, obs)) or [None])[0]))
+    return fails, {'scenarios_judged': nj, 'round2_scenarios': n2, 'round2_refused_calls_seen': nraise, 'failed_checks': len({(id(f.replay['scenario']), f.key) for f in fails}),
                    'distinct_failure_keys': len({f.key for f in fails}), 'focus': len(focus)}
 
 
 def replay(d):
     sc = d['scenario']
+    if sc.get('r2'):
+        R = r2_run(sc)
+        if isinstance(R, str):
+            return Failure('round2/%s/raises' % sc['r2'], R, d) if d['key'].endswith('/raises') else None
+        for key, what, obs in R['bad']:
+            if key == d['key']:
+                return Failure(key, what, d)
+        return None
     R = impl_results(sc)
     for key, what, obs in judge(sc, R):
         if key == d['key']:
